@@ -79,31 +79,43 @@ def wrapApply (ms : List M) (sig : List Pixel) : List Pixel := sig.map fun p => 
 
 /-! ### `cv2.resize(labels, (W, H), interpolation=cv2.INTER_NEAREST)` -/
 
-/-- source index of destination index `x` when `n` entries are resized to `N` -/
-def nearIdx (n N x : Nat) : Nat := min (x * n / N) (n - 1)
+/-- source index of destination index `x` when `n` entries are resized to `N`, in exact arithmetic: `⌊x·n/N⌋` -/
+def nearIdxExact (n N x : Nat) : Nat := min (x * n / N) (n - 1)
+
+/-- the triples `(n, N, x)` at which OpenCV's `floor(x * (1.0 / (N / n)))`, evaluated in doubles, falls one below
+the exact value (tabulated from `cv2.resize` into `DarsiaGen.SignalTables.nearDev`) -/
+abbrev Dev := List (Nat × Nat × Nat)
+
+/-- the index OpenCV uses: the exact one, minus one at the listed rounding points -/
+def nearIdx (dev : Dev) (n N x : Nat) : Nat := nearIdxExact n N x - (if (n, N, x) ∈ dev then 1 else 0)
+
+/-- what the rounding points may be: exact breakpoints `N ∣ x·n` with a positive quotient, inside the range, and
+never for `n = N` (decidable; checked on the generated table) -/
+def DevOk (dev : Dev) : Bool :=
+  dev.all fun e => decide (e.2.1 ∣ e.2.2 * e.1) && decide (0 < e.2.2 * e.1 / e.2.1) && decide (e.2.2 < e.2.1) && decide (e.1 ≠ e.2.1)
 
 /-- nearest-neighbour resize of a row-major `h × w` map to `H × W` -/
-def resizeNearest (src : List (List Nat)) (H W : Nat) : List (List Nat) :=
+def resizeNearest (dev : Dev) (src : List (List Nat)) (H W : Nat) : List (List Nat) :=
   let h := src.length
   (List.range H).map fun i =>
-    let row := listGetD src (nearIdx h H i) []
-    (List.range W).map fun j => listGetD row (nearIdx row.length W j) 0
+    let row := listGetD src (nearIdx dev h H i) []
+    (List.range W).map fun j => listGetD row (nearIdx dev row.length W j) 0
 
 /-- `HeterogeneousLinearModel.__call__`: the label map in force for a signal of shape `H × W` -/
-def labelsFor (labels : List (List Nat)) (H W : Nat) : List (List Nat) :=
-  if labels.length = H ∧ (listGetD labels 0 []).length = W then labels else resizeNearest labels H W
+def labelsFor (dev : Dev) (labels : List (List Nat)) (H W : Nat) : List (List Nat) :=
+  if labels.length = H ∧ (listGetD labels 0 []).length = W then labels else resizeNearest dev labels H W
 
 /-- `arr.shape[:2]` of a row-major map -/
 def shapeOf (m : List (List Nat)) : Nat × Nat := (m.length, (listGetD m 0 []).length)
 
 /-- one call of `HeterogeneousLinearModel` with a signal of shape `H × W`: the cached label map afterwards
 (`if img.shape[:2] != cached.shape[:2]: cached = cv2.resize(self.labels, …)` — from the ORIGINAL labels) -/
-def cacheStep (orig cached : List (List Nat)) (H W : Nat) : List (List Nat) :=
-  if shapeOf cached = (H, W) then cached else resizeNearest orig H W
+def cacheStep (dev : Dev) (orig cached : List (List Nat)) (H W : Nat) : List (List Nat) :=
+  if shapeOf cached = (H, W) then cached else resizeNearest dev orig H W
 
 /-- the cached label map after a sequence of calls (initially a copy of the labels) -/
-def cacheRun (orig : List (List Nat)) (shapes : List (Nat × Nat)) : List (List Nat) :=
-  shapes.foldl (fun c hw => cacheStep orig c hw.1 hw.2) orig
+def cacheRun (dev : Dev) (orig : List (List Nat)) (shapes : List (Nat × Nat)) : List (List Nat) :=
+  shapes.foldl (fun c hw => cacheStep dev orig c hw.1 hw.2) orig
 
 /-! ### parameter routing -/
 
